@@ -35,7 +35,39 @@ void h_add_penalty_term(void){ uint64_t* ns; double* knots; uint32_t ndim, dim, 
                        expect_fail=[r"^h_add_penalty_term\.assertion\.1$", r"^add_penalty_term\.postcondition\.[34]$"],
                        must_have=[r"calc_penalty\.precondition"], timeout=900, cc_flags=["-I/usr/include/suitesparse"],
                        backend="cbmc-sat-contracts", note="entry point from fit.h; NO precondition porder<=order; calc_penalty replaced by its contract (requires porder<=order)"))
-    return [dd, cp, ap], js
+    # bsplinebasis (splineutil.c): the design matrix is filled inside the dense matrix cholmod hands out
+    W = "__CPROVER_object_whole"
+    NP, NS = (64, 32) if not thorough else (128, 48)
+    bb = units.free_function("src/fitter/splineutil.c", "bsplinebasis"); bs = units.free_function("src/fitter/splineutil.c", "bspline")
+    pre_b = r'''
+#include <stddef.h>
+#include <stdlib.h>
+typedef struct cholmod_dense_struct { size_t nrow, ncol, nzmax, d; void *x, *z; int xtype, dtype; } cholmod_dense;
+typedef struct cholmod_sparse_struct { size_t nrow, ncol; } cholmod_sparse; typedef struct cholmod_common_struct { int status; } cholmod_common;
+#define CHOLMOD_REAL 1
+cholmod_dense vp_dense; cholmod_sparse vp_sparse_result;
+/* assumed contract of cholmod_l_allocate_dense: a dense nrow x ncol matrix with leading dimension d */
+cholmod_dense* cholmod_l_allocate_dense(size_t nrow, size_t ncol, size_t d, int xtype, cholmod_common* c) {
+	vp_dense.nrow = nrow; vp_dense.ncol = ncol; vp_dense.d = d; vp_dense.nzmax = ncol*d; vp_dense.x = malloc(ncol*d*sizeof(double)); __CPROVER_assume(vp_dense.x != NULL); return &vp_dense; }
+cholmod_sparse* cholmod_l_dense_to_sparse(cholmod_dense* X, int values, cholmod_common* c) { return &vp_sparse_result; }
+int cholmod_l_free_dense(cholmod_dense** X, cholmod_common* c) { *X = NULL; return 1; }
+'''
+    ct_bs = ("static double bspline(const double* knots, double x, int i, int n)\n"
+             "__CPROVER_requires(n >= 0 && i >= 0)\n__CPROVER_requires(__CPROVER_r_ok(knots, ((size_t)i + (size_t)n + 2)*sizeof(double)))\n__CPROVER_assigns()\n__CPROVER_ensures(1)\n;\n")
+    ct_bb = ("cholmod_sparse* bsplinebasis(const double* knots, size_t nknots, const double* x, size_t npts, int order, cholmod_common* c)\n"
+             "__CPROVER_requires(order >= 0 && order <= 8 && nknots >= (size_t)order + 2 && nknots <= %d + (size_t)order + 1 && npts >= 1 && npts <= %d)\n"
+             "__CPROVER_requires(__CPROVER_is_fresh(knots, nknots*sizeof(double)))\n__CPROVER_requires(__CPROVER_is_fresh(x, npts*sizeof(double)))\n"
+             "__CPROVER_assigns(%s(&vp_dense))\n__CPROVER_ensures(__CPROVER_return_value != NULL)\n;\n" % (NS, NP, W))
+    bloops = [("for", "__CPROVER_assigns(col, row, k, %s(basis->x))\n__CPROVER_loop_invariant(col >= 0 && (size_t)col <= nsplines && k == col*(int)npts && basis == &vp_dense && nsplines == nknots-order-1 && vp_dense.nzmax == nsplines*npts)\n__CPROVER_decreases(nsplines - (size_t)col)" % W),
+              ("for", "__CPROVER_assigns(row, k, %s(basis->x))\n__CPROVER_loop_invariant(row >= 0 && (size_t)row <= npts && (size_t)col < nsplines && k == col*(int)npts + row && basis == &vp_dense)\n__CPROVER_decreases(npts - (size_t)row)" % W)]
+    tu = pre_b + ct_bs + ct_bb + bs.text(None) + bb.text(bloops) + "void h_bsplinebasis(void){ const double *k, *x; size_t nk, np; int o; cholmod_common c; bsplinebasis(k, nk, x, np, o, &c); __CPROVER_assert(0, \"canary: reachable after call\"); }\n"
+    js.append(vlib.Job("C13-bsplinebasis", tu, "h_bsplinebasis", enforce="bsplinebasis", replace=["bspline"], expect_fail=[r"^h_bsplinebasis\.assertion\.1$"],
+                       must_have=["loop_invariant_step", r"bspline\.precondition"], timeout=1500, split=8, cbmc_flags=["--no-malloc-may-fail"], backend="cbmc-sat-contracts",
+                       note="weakest safety precondition nknots >= order+2, abscissae readable for npts; loops closed by invariants (k == col*npts+row); npts<=%d, nsplines<=%d; the static recursive bspline replaced by its contract (reads knots[i..i+n+1])" % (NP, NS)))
+    tu = pre_b + ct_bs + bs.text(None) + "void h_bspline_static(void){ size_t sz; __CPROVER_assume(sz <= 4096); double* k = malloc(sz*sizeof(double)); double x; int i, n; bspline(k, x, i, n); __CPROVER_assert(0, \"canary: reachable after call\"); }\n"
+    js.append(vlib.Job("C13-bspline-static", tu, "h_bspline_static", enforce_rec="bspline", loop_contracts=False, expect_fail=[r"^h_bspline_static\.assertion\.1$"], must_have=[r"bspline\.precondition"],
+                       timeout=600, backend="cbmc-sat-contracts", note="splineutil.c's own Cox-de Boor recursion; closed by --enforce-contract-rec"))
+    return [dd, cp, ap, bb, bs], js
 
 def replay_fitargs(v):
     """fit() argument obligations -> the real fit() natively (ASan/UBSan) for the inconsistent-argument cases"""
@@ -90,7 +122,7 @@ if __name__ == "__main__":
     for f in fns: rep.functions.append(f.info())
     rep.assume("C++ half: the whole template splinetable::fit is extracted (rules R7, R14-R19: containers -> (pointer,size), throw -> ghost flag + return, unique_ptr/allocate -> storage primitives) and executed from CBMC's GOTO program for valid problems and every single-fault variant of the arguments (ndim 1, 2), with add_penalty_term/glamfit_complex hooked to check their preconditions (BOUNDED: enumerated combinations); the C wrapper's non-zero return is not covered",
                "cholmod_l_allocate_triplet/triplet_to_sparse/ssmult/transpose/speye/add/free_*, cholmod_tril, kronecker_product: nondeterministic stubs (stubs/cholmod_stubs.h): return fresh objects of the requested capacity, contents unconstrained",
-               "bsplinebasis/bspline in splineutil.c and glamfit_complex are not under contract here",
+               "glamfit_complex itself is not under contract (cholmod calls); bsplinebasis' precondition 'abscissae readable for data->ranges[i]' is what fit() must establish (checked in the C13-fit-arguments group)",
                "glam.c functions are extracted verbatim (comments dropped, no rewrite rule fires); loop contracts inserted by ordinal",
                "a zero-length VLA (order == 0 in divided_diffs) is accepted by CBMC; UBSan's vla-bound would flag it")
     rep.trust("cbmc 6.11.0 / goto-instrument --dfcc", "MiniSat", "stubs/cholmod_stubs.h")
